@@ -11,6 +11,7 @@ package c19wb
 
 import (
 	"fmt"
+	"math/big"
 
 	"github.com/cloudflare/circl/vdaf/prio3/arith"
 	"github.com/cloudflare/circl/zz_verif/vlib"
@@ -31,12 +32,61 @@ type FLP[V any] interface {
 
 // Edit overwrites element Idx of the encoded measurement.
 type Edit struct {
-	Idx  int
-	Kind string // "0", "1", "2", "-1", "half" (x with 2x=1), "pow2", "random"
+	Idx int
+	// "0", "1", "2", "-1", "half" (x with 2x=1), "pow2", "random", or
+	// "mont-root": a non-bit x for which the bit test x^2-x is a non-zero
+	// element that is zero in part of the internal (Montgomery) representation
+	Kind string
 }
 
 // NonBitKinds are the values that are not bits.
-var NonBitKinds = []string{"2", "-1", "half", "pow2", "random"}
+var NonBitKinds = []string{"2", "-1", "half", "pow2", "random", "mont-root", "mont-root"}
+
+var (
+	p64, _  = new(big.Int).SetString("18446744069414584321", 10)
+	p128, _ = new(big.Int).SetString("340282366920938462946865773367900766209", 10)
+)
+
+// montRoot solves x^2 - x = e (mod p) for e = pattern * R^-1, where pattern
+// is non-zero only inside one bit window of the representation width.
+func montRoot(t *rapid.T, size uint) *big.Int {
+	p, width := p64, 64
+	wins := [][2]int{{32, 64}, {0, 32}, {16, 64}, {48, 64}, {0, 16}}
+	if size == 16 {
+		p, width = p128, 128
+		wins = [][2]int{{64, 128}, {0, 64}, {32, 128}, {96, 128}, {0, 32}, {32, 64}}
+	}
+	w := wins[rapid.IntRange(0, len(wins)-1).Draw(t, "mont.win")]
+	rInv := new(big.Int).ModInverse(new(big.Int).Lsh(big.NewInt(1), uint(width)), p)
+	inv2 := new(big.Int).ModInverse(big.NewInt(2), p)
+	k := new(big.Int).SetUint64(rapid.Uint64Range(1, 1<<20).Draw(t, "mont.k"))
+	if rapid.Bool().Draw(t, "mont.wide") {
+		k.Lsh(k, uint(rapid.IntRange(0, w[1]-w[0]-1).Draw(t, "mont.sh")))
+	}
+	one := big.NewInt(1)
+	for {
+		pat := new(big.Int).Mod(k, new(big.Int).Lsh(one, uint(w[1]-w[0])))
+		pat.Lsh(pat, uint(w[0]))
+		k.Add(k, one)
+		if pat.Sign() == 0 || pat.Cmp(p) >= 0 {
+			continue
+		}
+		e := pat.Mul(pat, rInv)
+		e.Mod(e, p)
+		disc := new(big.Int).Lsh(e, 2)
+		disc.Add(disc, one).Mod(disc, p)
+		s := new(big.Int).ModSqrt(disc, p)
+		if s == nil {
+			continue
+		}
+		x := s.Add(s, one)
+		x.Mul(x, inv2).Mod(x, p)
+		if x.Cmp(one) <= 0 {
+			continue
+		}
+		return x
+	}
+}
 
 func setElt[E arith.Elt, F arith.Fp[E]](t *rapid.T, e *E, kind string) {
 	f := F(e)
@@ -56,6 +106,17 @@ func setElt[E arith.Elt, F arith.Fp[E]](t *rapid.T, e *E, kind string) {
 		f.Inv(&two)
 	case "pow2":
 		_ = f.SetUint64(uint64(1) << uint(rapid.IntRange(1, 62).Draw(t, "pow2")))
+	case "mont-root":
+		size := f.Size()
+		x := montRoot(t, size)
+		be := x.FillBytes(make([]byte, size))
+		le := make([]byte, size)
+		for i := range be {
+			le[int(size)-1-i] = be[i]
+		}
+		if err := f.UnmarshalBinary(le); err != nil {
+			panic(err)
+		}
 	default:
 		for {
 			if err := f.Random(vlib.DrawReader(t, "elt")); err != nil {
